@@ -60,6 +60,7 @@ type cffSpec struct {
 	charset     []byte // if nil: predefined (0) for simple fonts, format 2 single range for CID
 	encoding    []byte // simple fonts: if nil, standard encoding
 	fdselect    []byte
+	predef      int // simple fonts: predefined charset id 1 (Expert) or 2 (ExpertSubset) instead of charset data
 }
 
 // c02cff lays out: header, Name, Top DICT, String, GSubr INDEXes, charset,
@@ -110,6 +111,8 @@ func c02cff(s *cffSpec) []byte {
 		td = append(append(td, cffInt(offCS)...), 17)
 		if charset != nil {
 			td = append(append(td, cffInt(offCharset)...), 15)
+		} else if s.predef != 0 {
+			td = append(append(td, cffInt(s.predef)...), 15)
 		}
 		if s.cid {
 			td = append(append(td, cffInt(offFDA)...), 12, 36)
@@ -265,6 +268,25 @@ var c02amps = []c02amp{
 		}
 		fw.u16(n)
 		return c02cff(&cffSpec{cid: true, nFD: 3, charstrings: cs, charset: cw.b, fdselect: fw.b})
+	}},
+	{"cff-predefined-charset-glyph-counts", dCFF, func(size int, th bool) []byte {
+		// predefined charsets have fixed sizes (ISOAdobe 229, Expert 166,
+		// ExpertSubset 87 glyphs): one glyph more than the charset names
+		id := size // 0, 1, 2
+		n := []int{229, 166, 87}[size] + 1
+		cs := make([][]byte, n)
+		for i := range cs {
+			cs[i] = []byte{14}
+		}
+		return c02cff(&cffSpec{charstrings: cs, predef: id})
+	}},
+	{"cff-predefined-charset-expertsubset-100", dCFF, func(size int, th bool) []byte {
+		n := pick3(size, 88, 100, 166)
+		cs := make([][]byte, n)
+		for i := range cs {
+			cs[i] = []byte{14}
+		}
+		return c02cff(&cffSpec{charstrings: cs, predef: 2})
 	}},
 	{"cff-fdselect3-redundant-ranges", dCFF, func(size int, th bool) []byte {
 		// legal but redundant: adjacent format-3 ranges that select the same
@@ -557,6 +579,18 @@ var c02amps = []c02amp{
 			w.u16(0, 14).u8(0, 1).u16(np, 0, 0, 0)
 		}
 		w.b = append(w.b, make([]byte, l)...)
+		return w.b
+	}},
+	{"kern-overlapping-subtables-10921-pairs", dKern, func(size int, th bool) []byte {
+		// as above, but every subtable claims 10921 pairs: 14 + 6*10921 = 65540
+		// does not fit the 16-bit length field (it wraps to 4)
+		nt := pick3(size, 2000, 4000, 8000)
+		w := &bw{}
+		w.u16(0, nt)
+		for i := 0; i < nt; i++ {
+			w.u16(0, 14).u8(0, 1).u16(10921, 0, 0, 0)
+		}
+		w.b = append(w.b, make([]byte, 6*10921)...)
 		return w.b
 	}},
 	{"kern-many-skipped-subtables", dKern, func(size int, th bool) []byte {
